@@ -81,6 +81,10 @@ func main() {
 		sd, _ := strconv.ParseInt(os.Args[2], 10, 64)
 		nr, _ := strconv.Atoi(os.Args[3])
 		p2pNetChild(sd, nr, os.Args[4], os.Args[5], os.Args[6])
+	case "p2phs-child":
+		sd, _ := strconv.ParseInt(os.Args[2], 10, 64)
+		nr, _ := strconv.Atoi(os.Args[3])
+		p2pHsChild(sd, nr, os.Args[4], os.Args[5], os.Args[6])
 	case "facts":
 		fs := flag.NewFlagSet("facts", flag.ExitOnError)
 		out := fs.String("out", "", "output directory for Gen/*.lean")
